@@ -359,6 +359,37 @@ def root_fn_name(f):
     return r.qname.split("::")[-1]
 
 
+def rule_saved_block_durable(ctx):
+    R = "C06.11"
+    ctx.rule(R, "a finalized block is durable before the replica moves on: every path of save_block that hands a block to the engine manager (queue_block) returns Ok only after the awaited wait_until_persisted of that block's number completed. The caller (process_commit_qc) goes on to start_new_view, which prunes the payload cache and backs the state up with the new certificate but without the payload - if the block were only queued (in memory) and all holders crashed then, everybody would hold a certificate for a block nobody has: the leader waits for it forever and it is never re-proposed")
+    f = ctx.body(SM + "::save_block")
+    T = ctx.T(f)
+    cfg = ctx.cfg(f, with_cancel=False)
+    q = [c["bb"] for c in T.calls() if (c["rq"] or c["q"]).endswith("EngineManager::queue_block")]
+    ctx.floor(R, "queue_block sites in save_block", len(q), 1)
+    edges = Q.success_edges(ctx, f, lambda b: (b[0] == "await" and b[1][0] == "call" and b[1][1].endswith("EngineManager::wait_until_persisted")) or (b[0] == "call" and b[1].endswith("EngineManager::wait_until_persisted")))
+    rets = set(Q.success_return_blocks(ctx, f)) if f.locals[0].s.startswith("std::result::Result<") else set(b for b, _ in Q.return_blocks_maybe_ok(ctx, f))
+    bad = []
+    for qb in q:
+        after = cfg.reach_from([y for _, y in cfg.succ[qb]])
+        for r in rets & after:
+            if not edges or not cfg.must_pass(r, edges):
+                # the return may be reachable only on paths that did not queue anything: look at paths from the queue_block site
+                sub = cfg.reach_from([y for _, y in cfg.succ[qb]], avoid_edges=frozenset(edges))
+                if r in sub:
+                    bad.append(r)
+    waits = [x for c in T.calls() if (c["rq"] or c["q"]).endswith(("EngineManager::wait_until_queued", "EngineManager::wait_until_persisted")) for x in [(c["rq"] or c["q"]).rsplit("::", 1)[1]]]
+    ctx.ob(R, "persisted before save_block returns", not bad and bool(edges), "after queue_block, Ok is reachable only through the completed wait_until_persisted" if not bad and edges else
+           "save_block can return Ok after queue_block without having waited for the block to be persisted (waits found: %s): the caller prunes the payload cache and backs up a state whose block exists in memory only" % (sorted(set(waits)) or "none"), f.loc())
+    # the number waited for is the number of the block that was queued
+    okn = False
+    for c in T.calls():
+        if (c["rq"] or c["q"]).endswith("EngineManager::wait_until_persisted"):
+            a = T.args_of(c)
+            okn = len(a) > 2 and any(x[0] == "field" and x[2] == "number" for x in subterms(a[2]))
+    ctx.ob(R, "waits for the saved block's number", okn, "wait_until_persisted(ctx, <the block's header>.number)" if okn else "the persisted-wait is not for the saved block's number", f.loc())
+
+
 def rule_dispatch_and_errors(ctx):
     R = "C06.9"
     ctx.rule(R, "replica loop dispatch: each ChonkyMsg variant reaches exactly its own handler, and after a handler ran the loop stops only for the handler's Internal error (cancellation / storage failure) - a rejected message (old, invalid, wrong leader ...) never ends the replica, whatever a peer sends")
@@ -424,4 +455,4 @@ def rule_dispatch_and_errors(ctx):
 
 from .c03 import rule_proposals_roundtrip   # a restarted replica must still hold the payloads it voted for (else the block cannot be built when its certificate forms)
 
-RULES = [("C06.7", rule_payload_cache_retention), ("C03.10", rule_proposals_roundtrip), ("C06.1", rule_main_loop), ("C06.2", rule_timeout_starter), ("C06.3", rule_bootstrap), ("C06.4", rule_catch_up), ("C06.5", rule_view_starter), ("C06.6", rule_proposer), ("C06.8", rule_timer_writers), ("C06.9", rule_dispatch_and_errors), ("C06.10", rule_bounded_waits)]
+RULES = [("C06.7", rule_payload_cache_retention), ("C03.10", rule_proposals_roundtrip), ("C06.1", rule_main_loop), ("C06.2", rule_timeout_starter), ("C06.3", rule_bootstrap), ("C06.4", rule_catch_up), ("C06.5", rule_view_starter), ("C06.6", rule_proposer), ("C06.8", rule_timer_writers), ("C06.9", rule_dispatch_and_errors), ("C06.10", rule_bounded_waits), ("C06.11", rule_saved_block_durable)]
